@@ -51,6 +51,7 @@ class Zoo(object):
         self.s3_kwargs = s3_kwargs or {}
         self.cassettes = []
         self._names = {}
+        self._dirs = {}
         self._tmp = None
         self.fake = None
 
@@ -66,6 +67,7 @@ class Zoo(object):
                     self._tmp = tempfile.mkdtemp(prefix='verif-zoo-')
                 d = os.path.join(self._tmp, 'cassette%d' % len(self.cassettes))
                 self._add(wrap(FileBasedTapeCassette)(d), 'file')
+                self._dirs[id(self.cassettes[-1])] = d
             elif kind == 's3':
                 from playback.tape_cassettes.s3.s3_tape_cassette import S3TapeCassette
                 if self.fake is None:
@@ -95,11 +97,23 @@ class Zoo(object):
         """Serialised store content, comparable before/after."""
         k = self.kind(cas)
         if k == 'memory':
-            return dict(cas._recordings)
+            # through the public interface only (the private store may be renamed / restructured by a refactoring):
+            # id -> serialised (data, metadata) of what a fetch returns
+            from jsonpickle import encode
+            out = {}
+            for rid in cas.get_all_recording_ids():
+                r = cas.get_recording(rid)
+                try:
+                    out[rid] = encode([sorted((key, encode(r.get_data(key))) for key in r.get_all_keys()),
+                                       r.get_metadata()])
+                except Exception as e:  # pylint: disable=broad-except
+                    out[rid] = 'unencodable: %s' % type(e).__name__
+            return out
         if k == 'file':
             out = {}
-            for fn in sorted(os.listdir(cas.directory)):
-                with open(os.path.join(cas.directory, fn), 'rb') as f:
+            d = self._dirs[id(cas)]     # the scratch directory this zoo handed to the cassette
+            for fn in sorted(os.listdir(d)):
+                with open(os.path.join(d, fn), 'rb') as f:
                     out[fn] = f.read()
             return out
         return self.fake.contents(BUCKET)
